@@ -1,7 +1,9 @@
 /- Line protocol driver for the file-level model (Python framing + batch loop + C++ parser model).
    input : `<sel_mask> <perBatch> <nBlocks or -1> <sched,comma-separated or -> <file bytes as hex>`
+   or    : `C <sel_mask> <perBatch> <sched> <file 1 hex> <file 2 hex> ...`  (concatenate of several files)
    output: `OK <nblocks found> {json}` | `NONE-FRAMING` (an assertion of the framing fails) | `NONE-PARSE` -/
 import Pybes3Verif.Model.RawFile
+import Pybes3Verif.Model.RawConcat
 import Pybes3Verif.Util.RawRender
 open Pybes3Verif.Raw Pybes3Verif.Raw.Render Pybes3Verif.RawFile
 
@@ -14,6 +16,15 @@ def hexBytes : List Char → List Nat
 
 def step (line : String) : String :=
   match ((line.splitOn " ").filter (· ≠ "")) with
+  | "C" :: m :: pb :: sched :: hexes =>
+    -- concatenate(files): `C <sel_mask> <perBatch> <sched> <hex of file 1> <hex of file 2> ...`
+    match m.toNat?, pb.toNat?, (if sched == "-" then some [] else (sched.splitOn ",").mapM (fun s => s.toNat?)) with
+    | some m, some pb, some sched =>
+      let sel := selOfMask m
+      match concatModel sel pb sched (hexes.map (fun h => hexBytes h.toList)) with
+      | none => "NONE"
+      | some evs => "OK " ++ toString evs.length ++ " " ++ render (effectiveSel sel) evs
+    | _, _, _ => "BAD"
   | [m, pb, nb, sched, hex] =>
     match m.toNat?, pb.toNat?, (if sched == "-" then some [] else (sched.splitOn ",").mapM (fun s => s.toNat?)) with
     | some m, some pb, some sched =>
